@@ -44,6 +44,12 @@ LINKED = {
                  "ma": 'import "leaf";\nfunction fa(int a) -> int { return lf(a); }\n',
                  "mb": 'import "leaf";\nfunction fb(float x) -> float { return lf(x); }\n',
                  "app": 'import "ma";\nimport "mb";\nexport function f(int a) -> float { return fa(a) + fb(a); }\n'}, "app"),
+    # the imported module's function overloads one of the importing module (the call still leaves the module)
+    "overload-across-modules": ({"lib": "function scale(float4 v, float k) -> float4 { return v * k; }\nfunction only(int a) -> int { return a + 1; }\n",
+                                 "app": 'import "lib";\nfunction scale(float2 v, float k) -> float2 { return v * k; }\nexport function f(float k) -> float { float4 w = scale(float4(1.0, 2.0, 3.0, 4.0), k); float2 u = scale(float2(1.0, 2.0), k); return w[3] + u[1]; }\n'}, "app"),
+    "overload-across-modules-only-import-called": ({"lib": "function scale(float4 v, float k) -> float4 { return v * k; }\n",
+                                                    "app": 'import "lib";\nfunction scale(float2 v, float k) -> float2 { return v * k; }\nexport function f(float k) -> float { float4 w = scale(float4(1.0, 2.0, 3.0, 4.0), k); return w[3]; }\n'}, "app"),
+    "struct-only-import": ({"lib": "struct Pt { int x; int y; }\n", "app": 'import "lib";\nexport function f(int a) -> int { Pt p; p.x = a; return p.x; }\n'}, "app"),
     "fan-then-chain": ({"zz": "function zf(int a) -> int { return a - 1; }\n",
                         "aa": 'import "zz";\nfunction af(int a) -> int { return zf(a) * 3; }\n',
                         "bb": "function bf(int a) -> int { return a * 5; }\n",
